@@ -9,6 +9,7 @@ package main
 // counts as a counterexample only for the variant with all hypotheses.
 
 import (
+	"sync/atomic"
 	"strconv"
 	"sort"
 	"bytes"
@@ -529,8 +530,12 @@ type solveJob struct {
 
 var noRetry bool
 
+var failedSoFar int32
+var failFast int
+
 func dischargeAll(obls []*Obligation, outDir string, timeoutS int, par int) {
 	_ = os.MkdirAll(outDir, 0o755)
+	failFast, _ = strconv.Atoi(os.Getenv("HVC_FAILFAST"))
 	if os.Getenv("HVC_NORESCUE") != "" {
 		// runs that are expected to fail (must-fail corpus): no second and third chances
 		defer func(old bool) { noRetry = old }(noRetry)
@@ -569,7 +574,17 @@ func dischargeAll(obls []*Obligation, outDir string, timeoutS int, par int) {
 		go func(j *solveJob) {
 			defer wg.Done()
 			defer func() { <-sem }()
+			if failFast > 0 && atomic.LoadInt32(&failedSoFar) >= int32(failFast) {
+				// must-fail corpus only (HVC_FAILFAST): enough obligations have failed after full
+				// treatment; the rest of the queue is not run
+				j.o.Status = "unknown"
+				j.o.Solver = "not run (HVC_FAILFAST)"
+				return
+			}
 			runJob(j, timeoutS)
+			if j.o.Status != "unsat" && j.o.Kind != "vacuity" {
+				atomic.AddInt32(&failedSoFar, 1)
+			}
 		}(job)
 	}
 	wg.Wait()
